@@ -134,6 +134,24 @@ func runC11(c *core.Ctx) {
 	frameHasID := map[int]bool{}
 	varying := !wrap && !jumbo && t.Chance(1, 4) // histories that mix usable and unusable MTUs and flip EnablePictureID
 	baseMTU := mtu
+	toggleDen := uint64(6)
+	if varying && t.Chance(1, 6) {
+		// the running id is brought close to a form change (127 -> 128) or to the wrap (32767 -> 0) by earlier
+		// frames, so that toggling the option and unusable calls happen AROUND those points
+		n := []int{120, 126, 32760, 32766, 32700}[t.Intn(5)] + t.Intn(3)
+		one := []byte{7}
+		if c.Guard("codecs.VP8Payloader.Payload(warm-up)", func() {
+			for i := 0; i < n; i++ {
+				pay.Payload(8, one)
+			}
+		}) {
+			return
+		}
+		emitted = n
+		toggleDen = 3
+		c.Probe("picture-id-warm-up")
+		c.Logf("warm-up: %d earlier frames", n)
+	}
 	world(c, nframes, func(k int) [][]byte {
 		if varying {
 			mtu = baseMTU
@@ -143,7 +161,7 @@ func runC11(c *core.Ctx) {
 			case 2:
 				mtu = baseMTU + t.Intn(9)
 			}
-			if t.Chance(1, 6) {
+			if t.Chance(1, toggleDen) {
 				picID = !picID
 				pay.EnablePictureID = picID
 				c.Probe("picture-id-option-toggled")
@@ -370,13 +388,34 @@ func runC12(c *core.Ctx) {
 	nontrivial := false
 	c.Logf("flex=%v init=%d mtu=%d frames=%d", flex, init, mtu, nframes)
 	var fpParts []uint64
+	// FlexibleMode is a plain exported field: an application may flip it between frames (MTUs of toggling
+	// runs are sufficient for both modes)
+	toggling := mtu >= 12 && t.Chance(1, 5)
+	varyMTU := t.Chance(1, 6)
+	sendFlex := flex
+	flexOf := map[int]bool{} // frame index -> mode at that call (lookup only)
 	streamWorld(c, nframes, func(k int) [][]byte {
-		f := genVP9Frame(t, mtu)
+		if toggling && k > 0 && t.Chance(1, 3) {
+			sendFlex = !sendFlex
+			pay.FlexibleMode = sendFlex
+			c.Probe("flexible-mode-toggled-on-live-payloader")
+		}
+		flexOf[k] = sendFlex
+		if varyMTU && k > 0 {
+			mtu = 12 + []int{8, 0, 1, 3, 40, 1188}[t.Intn(6)] + t.Intn(4) // the path MTU changed between frames
+		}
+		var f vp9Frame
+		if k > 0 && frames[k-1].key && t.Chance(1, 3) {
+			f = genVP9FrameLike(t, mtu, &frames[k-1]) // a sibling of the previous key frame: same header but for one field
+			c.Probe("sibling-key-frame")
+		} else {
+			f = genVP9Frame(t, mtu)
+		}
 		frames = append(frames, f)
 		var ps [][]byte
 		c.Guard("codecs.VP9Payloader.Payload", func() { ps = pay.Payload(uint16(mtu), f.data) })
 		if len(ps) == 0 {
-			c.Violate("lossless", "C12/no-payload-for-frame", "frame %d (%d bytes, profile %d key=%v) produced no payload at MTU %d flex=%v", k, len(f.data), f.profile, f.key, mtu, flex)
+			c.Violate("lossless", "C12/no-payload-for-frame", "frame %d (%d bytes, profile %d key=%v) produced no payload at MTU %d flex=%v", k, len(f.data), f.profile, f.key, mtu, sendFlex)
 		}
 		for _, p := range ps {
 			if len(p) > mtu {
@@ -392,7 +431,7 @@ func runC12(c *core.Ctx) {
 		if f.key && (f.width == 65536 || f.height == 65536) {
 			c.Probe("width-65536")
 		}
-		if len(ps) > 1 || (f.key && !flex) || f.showExisting {
+		if len(ps) > 1 || (f.key && !sendFlex) || f.showExisting {
 			nontrivial = true
 		}
 		if f.showExisting {
@@ -418,6 +457,7 @@ func runC12(c *core.Ctx) {
 			return
 		}
 		f := frames[d.frame]
+		flex := flexOf[d.frame]
 		if d.frame != curFrame {
 			curFrame, cur = d.frame, nil
 		}
